@@ -52,7 +52,8 @@ META = {
             "pin add/rm/ls and repo/stat and fails for pin/update, add and repo/gc exactly through the trailing Unpin resp. the final X-Stream-Error, "
             "that a dropped return, an arm answering 200 or an ignored error break these statements (refutations), and that the hand-written handler "
             "models agree with the interpreted structures (status and RPC outcomes; repo/gc also the X-Stream-Error trailer; repo/stat one RepoStat "
-            "outcome per peer) on every environment. The repo/gc model takes the query: a collection that reported a peer or key error is answered "
+            "outcome per peer; add: the trailing-Unpin outcomes, the plain 500 of the arms before the adder, status and X-Stream-Error after a "
+            "successful adder — all six handlers are now tied; pin/ls lists the whole pinset or the one decoded CID and reads nothing of the query but arg, no type filter) on every environment. The repo/gc model takes the query: a collection that reported a peer or key error is answered "
             "200 + X-Stream-Error unless stream-errors=true (literal spelling) — the fourth corner (known finding K12d), proved to be exactly that "
             "condition, witnessed in Lean, generated for every stream-errors value and matched on the real proxy. The model is tied to the code by sending thousands of seeded raw HTTP requests through the real proxy between a "
             "recording daemon and recording cluster RPC services, comparing with the model and evaluating the Lean property clauses on the real observations.",
